@@ -5,8 +5,8 @@ use educe::Educe;
 use core::cmp::Ordering;
 #[derive(Educe)]
 #[educe(PartialEq)]
-pub enum T { Some(A<0>, A<1>, #[educe(PartialEq = true)] A<0>), None, Zed, A { #[educe(PartialEq = true)] c: A<0> } }
-pub fn values() -> Vec<T> { vec![T::Some(A(0), A(0), A(7)), T::Some(A(1), A(0), A(1)), T::Some(A(7), A(1), A(1)), T::Some(A(1), A(0), A(7)), T::Some(A(0), A(1), A(0)), T::Some(A(1), A(1), A(7)), T::Some(A(1), A(1), A(1)), T::Some(A(7), A(0), A(1)), T::Some(A(7), A(1), A(7)), T::Some(A(0), A(1), A(1)), T::Some(A(1), A(0), A(0)), T::Some(A(0), A(7), A(1)), T::None, T::Zed, T::A { c: A(0) }, T::A { c: A(1) }, T::A { c: A(7) }] }
-pub fn show(x: &T) -> String { #[allow(unused_variables)] match x { T::Some(p0, p1, p2) => format!("Some({},{},{})", sv(p0), sv(p1), sv(p2)), T::None => format!("None()"), T::Zed => format!("Zed()"), T::A { c: p0 } => format!("A({})", sv(p0)) } }
-pub fn o_eq(a: &T, b: &T) -> bool { match (a, b) { (T::Some(a0, a1, a2), T::Some(b0, b1, b2)) => (a0 == b0) && (a1 == b1) && (a2 == b2), (T::None, T::None) => true, (T::Zed, T::Zed) => true, (T::A { c: a0 }, T::A { c: b0 }) => (a0 == b0), _ => false } }
+pub struct T;
+pub fn values() -> Vec<T> { vec![T] }
+pub fn show(x: &T) -> String { #[allow(unused_variables)] match x { T => format!("T()") } }
+pub fn o_eq(a: &T, b: &T) -> bool { match (a, b) { (T, T) => true } }
 pub fn run(out: &mut Out) { let vs = values(); for a in &vs { for b in &vs { let e = o_eq(a, b); out.check((a == b) == e, "eq_10", "eq", || format!("{} == {} expected {}", show(a), show(b), e)); out.check((a != b) == !e, "eq_10", "ne", || format!("{} != {} expected {}", show(a), show(b), !e)); } } }
